@@ -1,18 +1,22 @@
 package main
 
 import (
+	"bytes"
 	"encoding/json"
 	"fmt"
 	"go/ast"
 	"go/parser"
 	"go/token"
+	"io"
 	"os"
 	"os/exec"
 	"path/filepath"
+	"regexp"
 	"sort"
 	"strings"
 
 	"github.com/goreleaser/nfpm/v2"
+	"github.com/goreleaser/nfpm/v2/deb"
 	"github.com/invopop/jsonschema"
 )
 
@@ -204,43 +208,17 @@ func switchCaseStrings(fd *ast.FuncDecl, tagSuffix string) []string {
 func genAcceptedReal() (string, error) {
 	var b strings.Builder
 	b.WriteString("import NfpmModel.Bytes\nnamespace Nfpm.Generated\nopen Nfpm\n")
-	deb, err := parse("deb/deb.go")
+	// the values the deb packager and the version handling accept are tabulated by execution over the universe of
+	// short string literals of the source (any value the code can compare a setting with is one of them) plus the
+	// schema's enumerated values: no dependence on where and how the code spells its switches
+	comp, method, sigTypes, vs, err := tabulateAccepted()
 	if err != nil {
 		return "", err
-	}
-	var comp, method, sigTypes []string
-	if fd := deb.funcDecl("createDataTarball"); fd != nil {
-		comp = switchCaseStrings(fd, "Deb.Compression")
-	}
-	if fd := deb.funcDecl("doSign"); fd != nil {
-		method = switchCaseStrings(fd, "Signature.Method")
-	}
-	if fd := deb.funcDecl("debSign"); fd != nil {
-		ast.Inspect(fd, func(n ast.Node) bool {
-			be, ok := n.(*ast.BinaryExpr)
-			if ok && be.Op == token.NEQ && fullSel(be.X) == "sigType" {
-				if v, ok := unquote(be.Y); ok {
-					sigTypes = append(sigTypes, v)
-				}
-			}
-			return true
-		})
-	}
-	if len(comp) == 0 || len(method) == 0 || len(sigTypes) == 0 {
-		return "", fmt.Errorf("deb accepted-value switches not found")
 	}
 	fmt.Fprintf(&b, "def accepted_deb_compression : List Bytes := %s\n", leanStrList(comp))
-	fmt.Fprintf(&b, "/-- explicit cases of the method switch; every other value (incl. \"debsign\") takes the default arm -/\n")
+	fmt.Fprintf(&b, "/-- the method values that do not behave like the default (debsign) -/\n")
 	fmt.Fprintf(&b, "def accepted_deb_signature_method_cases : List Bytes := %s\n", leanStrList(method))
 	fmt.Fprintf(&b, "def accepted_deb_signature_type : List Bytes := %s\n", leanStrList(sigTypes))
-	nf, err := parse("nfpm.go")
-	if err != nil {
-		return "", err
-	}
-	var vs []string
-	if fd := nf.funcDecl("WithDefaults"); fd != nil {
-		vs = switchCaseStrings(fd, "VersionSchema")
-	}
 	fmt.Fprintf(&b, "def accepted_version_schema : List Bytes := %s\n", leanStrList(vs))
 	// rpmpack setupCompressor of the linked module version
 	// resolved in the module under test, whatever the working directory of the translator is
@@ -269,4 +247,151 @@ func genAcceptedReal() (string, error) {
 	fmt.Fprintf(&b, "def accepted_rpm_compression_algorithms : List Bytes := %s\n", leanStrList(rpmc))
 	b.WriteString("end Nfpm.Generated\n")
 	return b.String(), nil
+}
+
+var reShortLit = regexp.MustCompile(`^[A-Za-z0-9:._|+-]{0,20}$`)
+
+// literalUniverse collects the short string literals of the given source files plus extra values.
+func literalUniverse(relFiles []string, extra []string) []string {
+	seen := map[string]bool{"": true}
+	for _, x := range extra {
+		seen[x] = true
+	}
+	for _, rf := range relFiles {
+		matches, _ := filepath.Glob(filepath.Join(*repo, rf))
+		for _, p := range matches {
+			if strings.HasSuffix(p, "_test.go") {
+				continue
+			}
+			fset := token.NewFileSet()
+			f, err := parser.ParseFile(fset, p, nil, 0)
+			if err != nil {
+				continue
+			}
+			ast.Inspect(f, func(n ast.Node) bool {
+				if lit, ok := n.(*ast.BasicLit); ok && lit.Kind == token.STRING {
+					if v, ok := unquote(lit); ok && reShortLit.MatchString(v) {
+						seen[v] = true
+					}
+				}
+				return true
+			})
+		}
+	}
+	var out []string
+	for v := range seen {
+		out = append(out, v)
+	}
+	sort.Strings(out)
+	return out
+}
+
+// ordered: "" first, then the values in the order of the schema enum, then the rest sorted.
+func orderedLike(vals []string, enum []string) []string {
+	in := map[string]bool{}
+	for _, v := range vals {
+		in[v] = true
+	}
+	var out []string
+	if in[""] {
+		out = append(out, "")
+		delete(in, "")
+	}
+	for _, e := range enum {
+		if in[e] {
+			out = append(out, e)
+			delete(in, e)
+		}
+	}
+	var rest []string
+	for v := range in {
+		rest = append(rest, v)
+	}
+	sort.Strings(rest)
+	return append(out, rest...)
+}
+
+func tabulateAccepted() (comp, method, sigTypes, schema []string, err error) {
+	enums := map[string][]string{}
+	for _, k := range configKeyPaths() {
+		if k.enum != "" {
+			enums[k.yaml] = strings.Split(k.enum, "\x1f")
+		}
+	}
+	var extra []string
+	for _, vs := range enums {
+		extra = append(extra, vs...)
+	}
+	universe := literalUniverse([]string{"deb/*.go", "nfpm.go", "internal/sign/*.go"}, extra)
+	base := func() *nfpm.Info {
+		return nfpm.WithDefaults(&nfpm.Info{Name: "p", Arch: "amd64", Platform: "linux", Version: "1.0.0", Maintainer: "m <m@example.com>", Description: "d"})
+	}
+	build := func(info *nfpm.Info) ([]byte, error) {
+		var buf bytes.Buffer
+		var err error
+		func() {
+			defer func() {
+				if r := recover(); r != nil {
+					err = fmt.Errorf("panic: %v", r)
+				}
+			}()
+			err = deb.Default.Package(info, &buf)
+		}()
+		return buf.Bytes(), err
+	}
+	if _, berr := build(base()); berr != nil {
+		return nil, nil, nil, nil, fmt.Errorf("G7: the base deb does not build: %v", berr)
+	}
+	sign := func(io.Reader) ([]byte, error) { return []byte("signature"), nil }
+	var compA, methodA, typeA, schemaA []string
+	for _, v := range universe {
+		i := base()
+		i.Deb.Compression = v
+		if _, e := build(i); e == nil {
+			compA = append(compA, v)
+		}
+		i = base()
+		i.Deb.Signature.SignFn = sign
+		i.Deb.Signature.Type = v
+		if _, e := build(i); e == nil && v != "" {
+			typeA = append(typeA, v)
+		}
+		if v != "" {
+			i = base()
+			i.Deb.Signature.SignFn = sign
+			i.Deb.Signature.Method = v
+			d, e := build(i)
+			j := base()
+			j.Deb.Signature.SignFn = sign
+			dd, ee := build(j)
+			// a method value is a case of its own when the package it yields is not the default method's
+			if (e == nil) != (ee == nil) || (e == nil && bytes.Contains(d, []byte("_gpgbuilder")) != bytes.Contains(dd, []byte("_gpgbuilder"))) {
+				methodA = append(methodA, v)
+			}
+		}
+		// version schema: a value is a case of its own when a semver-shaped version with a prerelease is not split
+		k := &nfpm.Info{Version: "1.2.3-rc1", VersionSchema: v}
+		nfpm.WithDefaults(k)
+		if k.Prerelease == "" && k.Version == "1.2.3-rc1" {
+			schemaA = append(schemaA, v)
+		}
+	}
+	if len(compA) == 0 || len(typeA) == 0 {
+		return nil, nil, nil, nil, fmt.Errorf("G7: tabulation found no accepted deb compression / signature type")
+	}
+	schemaOut := orderedLike(schemaA, enums["version_schema"])
+	for _, e := range enums["version_schema"] {
+		// the documented names of the default behaviour
+		found := false
+		for _, x := range schemaOut {
+			if x == e {
+				found = true
+			}
+		}
+		if !found {
+			schemaOut = append(schemaOut, e)
+		}
+	}
+	return orderedLike(compA, enums["deb.compression"]), orderedLike(methodA, enums["deb.signature.method"]),
+		orderedLike(typeA, enums["deb.signature.type"]), schemaOut, nil
 }
